@@ -7,7 +7,8 @@
 //   conv  Polyhedron::conversion(source, 0, dest, tmp_sat, ncols)   dest = identity matrix of lines,
 //                                                                   set up as Polyhedron::minimize does
 //   simp  Polyhedron::simplify(source, sat)                         on the result of `conv` (when it has a point)
-//   mini  Polyhedron::minimize(con_to_gen, source, dest, sat)       the real driver on a fresh sorted copy
+//   sort  Linear_System::sort_rows()                                 when the system is not flagged sorted
+//   mini  Polyhedron::minimize(con_to_gen, source, dest, sat)       the real driver on a fresh copy (start = is_sorted())
 //   addm  Polyhedron::add_and_minimize(con_to_gen, source, dest, sat)  pending rows on a minimized DD pair,
 //                                                                   prepared as process_pending_* does
 //
@@ -109,9 +110,14 @@ static bool has_point(const D& dest, dimension_type nle) {
 template <typename S, typename D>
 static void run_static(long id, bool cg, bool nnc, const S& source0, Topology topol) {
   S src = source0;
-  if (!src.is_sorted()) src.sort_rows();
   const dimension_type ncols = src.space_dimension() + (src.is_necessarily_closed() ? 1U : 2U);
-  const S sorted_src = src;
+  if (!src.is_sorted()) {
+    // --- sort: Linear_System::sort_rows() as the head of minimize calls it
+    D none(topol); Bit_Matrix nosat;
+    put_in("sort", id, cg, nnc, ncols, 0, 0, src, none, nosat);
+    src.sort_rows();
+    put_out("sort", id, 0, ncols, src, none, nosat);
+  }
   // --- conv
   D dst(topol);
   dimension_type dn = init_dest(src, dst);
@@ -132,10 +138,10 @@ static void run_static(long id, bool cg, bool nnc, const S& source0, Topology to
   }
   // --- mini: the real driver
   {
-    S s2 = sorted_src;
+    S s2 = source0;                 // as the caller holds it: minimize sorts it itself when the flag is clear
     D d2(topol);
     Bit_Matrix sat2;
-    put_in("mini", id, cg, nnc, ncols, 0, 0, s2, d2, sat2);
+    put_in("mini", id, cg, nnc, ncols, s2.is_sorted() ? 1 : 0, 0, s2, d2, sat2);   // `start` carries is_sorted()
     try { bool e = Polyhedron::minimize(cg, s2, d2, sat2); put_out("mini", id, e ? 1 : 0, ncols, s2, d2, sat2); }
     catch (...) { put_exc("mini", id); }
   }
